@@ -257,6 +257,12 @@ func init() {
 					_ = oh
 					if p == 0 {
 						ref, refHTML = string(o.stdout), h
+						if in.opts.GuessPaths {
+							// -parse=false turns off source analysis only: relative paths are still computed
+							if np := pr.run([]byte(in.dump), append(append([]string{}, flags...), "-parse=false")...); string(np.stdout) != ref {
+								res.violation(Finding{Property: "C18", Aspect: "pp-flags", What: in.name + ": pp -rel-path prints other paths with -parse=false (which only concerns source analysis) than without it", Input: []byte(in.dump), Expected: ref, Observed: string(np.stdout)})
+							}
+						}
 						continue
 					}
 					if string(o.stdout) != ref {
